@@ -80,7 +80,8 @@ def _parse_single_constraint(
 ) -> Constraint:
     # string comparator
     if m := STR_CMP_CONSTRAINT.match(constraint):
-        op = m.group("op")
+        # the pattern is case-insensitive and allows any blank between "not" and "in"
+        op = " ".join(m.group("op").lower().split())
         value = m.group("value").strip()
         return constraint_type(value, op)
 
